@@ -1,6 +1,6 @@
 (* C04 — every pseudo-random mask is fresh: no PRF input reused, no randomness merged. *)
-From CC Require Import Base.Prelude Base.Scalar Base.Ty Base.Shape Graph.Value Graph.IR
-  Model.Uniquify Proofs.UniquifyProofs.
+From CC Require Import Base.Prelude Base.Scalar Base.Ty Base.Shape Graph.Value Graph.IR Graph.Eval
+  Model.Uniquify Model.Opt Proofs.UniquifyProofs Proofs.OptFresh Proofs.OptProofs.
 
 (* Renumbering (uniquify_prf_id): for every node list and start value the PRF counters of the
    result, read in order, are exactly start+1 .. start+n, hence pairwise distinct, and nothing
@@ -26,6 +26,87 @@ Example C04_example :
      mkNode (OPermutationFromPRF 0 3) [0] [] [] (TArray [3] U64)])) = [1; 2; 3].
 Proof. reflexivity. Qed.
 
+(* The optimizer passes (models of Model/Opt.v, tied literally to optimize_context) keep fresh
+   nodes (Random, RandomPermutation, CuckooToPermutation, DecomposeSwitchingMap, PRF,
+   PermutationFromPRF) fresh, for EVERY node list and output: the decision procedure
+   fresh_check, which the harness evaluates on exported optimizer output, accepts the result of
+   each pass and of the pipeline.  It says: a mapped fresh node keeps its operation (in
+   particular it never becomes a Constant), no two fresh nodes share an image, and the new
+   graph contains no fresh node that is not such an image. *)
+Theorem C04_const_fresh : forall nodes o p,
+  opt_const nodes o = Ok p -> fresh_check nodes (po_nodes p) (po_map p) = true.
+Proof. exact const_fresh_check. Qed.
+Theorem C04_meta_fresh : forall nodes o p,
+  opt_meta nodes o = Ok p -> fresh_check nodes (po_nodes p) (po_map p) = true.
+Proof. exact meta_fresh_check. Qed.
+Theorem C04_dup_fresh : forall nodes o p,
+  opt_dup nodes o = Ok p -> fresh_check nodes (po_nodes p) (po_map p) = true.
+Proof. exact dup_fresh_check. Qed.
+Theorem C04_dangling_fresh : forall nodes o p,
+  opt_dangling nodes o = Ok p -> fresh_check nodes (po_nodes p) (po_map p) = true.
+Proof. exact dangling_fresh_check. Qed.
+Theorem C04_optimize_fresh : forall nodes o p,
+  optimize_graph nodes o = Ok p -> fresh_check nodes (po_nodes p) (po_map p) = true.
+Proof. exact optimize_fresh_check. Qed.
+
+(* the same, spelled out on node positions *)
+Theorem C04_optimize_fresh_spec : forall nodes o p, optimize_graph nodes o = Ok p ->
+  (forall i nd j, nth_error nodes i = Some nd -> is_fresh_op (n_op nd) = true ->
+                  nth_error (po_map p) i = Some (Some j) ->
+                  exists nd', 0 <= j /\ nth_error (po_nodes p) (Z.to_nat j) = Some nd' /\ n_op nd' = n_op nd) /\
+  (forall i i' nd nd' j, nth_error nodes i = Some nd -> is_fresh_op (n_op nd) = true ->
+                         nth_error nodes i' = Some nd' -> is_fresh_op (n_op nd') = true ->
+                         nth_error (po_map p) i = Some (Some j) -> nth_error (po_map p) i' = Some (Some j) -> i = i') /\
+  (forall j nd', nth_error (po_nodes p) j = Some nd' -> is_fresh_op (n_op nd') = true ->
+                 exists i nd, nth_error nodes i = Some nd /\ is_fresh_op (n_op nd) = true /\
+                              nth_error (po_map p) i = Some (Some (Z.of_nat j))).
+Proof. exact optimize_fresh_unfolded. Qed.
+
+(* the specification implies the decision procedure, and composes along join_maps *)
+Theorem C04_fresh_spec_sound : forall old new m, fresh_spec old new m -> fresh_check old new m = true.
+Proof. exact fresh_spec_check. Qed.
+Theorem C04_fresh_spec_compose : forall a b c m1 m2,
+  fresh_spec a b m1 -> fresh_spec b c m2 -> fresh_spec a c (join_maps m1 m2).
+Proof. exact fresh_spec_compose. Qed.
+
+(* distinct PRF counters stay distinct through the optimizer *)
+Theorem C04_optimize_keeps_counters_distinct : forall nodes o p,
+  optimize_graph nodes o = Ok p -> NoDup (prf_ivs nodes) -> NoDup (prf_ivs (po_nodes p)).
+Proof. exact optimize_keeps_counters_distinct. Qed.
+
+(* pipeline: renumber, then optimize: counters of the optimized graph are pairwise distinct *)
+Theorem C04_pipeline : forall start nodes o p,
+  optimize_graph (fst (uniquify_nodes start nodes)) o = Ok p -> NoDup (prf_ivs (po_nodes p)).
+Proof. exact uniquify_optimize_nodup. Qed.
+
+(* non-vacuity: a graph with two Random nodes (one dangling), two PRFs on the same key with
+   different counters, a foldable constant expression and a duplicated sub-expression *)
+Definition t8 := TScalar U8.
+Definition ex_fresh : list node :=
+  [mkNode (OInput t8) [] [] [] t8; mkNode (ORandom t8) [] [] [] t8; mkNode (ORandom t8) [] [] [] t8;
+   mkNode (OPRF 1 t8) [1] [] [] t8; mkNode (OPRF 2 t8) [1] [] [] t8;
+   mkNode (OConstant t8 (VArr [2])) [] [] [] t8; mkNode (OConstant t8 (VArr [3])) [] [] [] t8;
+   mkNode OAdd [5;6] [] [] t8;
+   mkNode OAdd [0;3] [] [] t8; mkNode OAdd [0;3] [] [] t8; mkNode OAdd [8;9] [] [] t8;
+   mkNode OAdd [10;4] [] [] t8; mkNode OAdd [11;7] [] [] t8].
+Example C04_example_optimize :
+  match optimize_graph ex_fresh (Some 12) with
+  | Ok p => (length (po_nodes p) =? 9)%nat && fresh_check ex_fresh (po_nodes p) (po_map p)
+            && eqb (prf_ivs (po_nodes p)) [1; 2]
+  | _ => false
+  end = true.
+Proof. vm_compute. reflexivity. Qed.
+
 Print Assumptions C04_uniquify_ids.
 Print Assumptions C04_uniquify_nodup.
 Print Assumptions C04_uniquify_context.
+Print Assumptions C04_const_fresh.
+Print Assumptions C04_meta_fresh.
+Print Assumptions C04_dup_fresh.
+Print Assumptions C04_dangling_fresh.
+Print Assumptions C04_optimize_fresh.
+Print Assumptions C04_optimize_fresh_spec.
+Print Assumptions C04_fresh_spec_sound.
+Print Assumptions C04_fresh_spec_compose.
+Print Assumptions C04_optimize_keeps_counters_distinct.
+Print Assumptions C04_pipeline.
